@@ -102,6 +102,14 @@ def main(seed):
         for f in os.listdir(rp):
             if f.endswith(".json"):
                 os.remove(os.path.join(rp, f))
+    if only:
+        # partial run: merge into the last full report
+        try:
+            prev = json.load(open(os.path.join(VERIF, "selftests", "selftest-sensitivity.json")))["results"]
+        except Exception:
+            prev = []
+        ids = set(r["id"] for r in results)
+        results = [r for r in prev if r["id"] not in ids] + results
     missed = [r["id"] for r in results if r.get("caught") is False]
     broken = [r["id"] for r in results if "status" in r]
     with open(os.path.join(VERIF, "selftests", "selftest-sensitivity.json"), "w") as fh:
